@@ -91,6 +91,9 @@ func nameMatch(got, want string) bool {
 	if strings.HasPrefix(want, "*.") {
 		return strings.HasSuffix(got, want[1:])
 	}
+	if strings.HasPrefix(want, "~") {
+		return strings.Contains(got, want[1:])
+	}
 	return false
 }
 
@@ -761,6 +764,15 @@ func accessPath(v ssa.Value) (ssa.Value, []string) {
 			rev = append(rev, "[]")
 			v = x.X
 			continue
+		case *ssa.Alloc:
+			// a local copy of a value (`for _, s := range xs` with s's address taken):
+			// exactly one whole-cell store and no element/field stores
+			if st := storesTo(x); len(st) == 1 && !hasPartialStores(x) {
+				if _, isParam := st[0].(*ssa.Parameter); !isParam {
+					v = st[0]
+					continue
+				}
+			}
 		}
 		break
 	}
@@ -820,4 +832,29 @@ func (w *World) ConstVal(pkg, name string) (int64, bool) {
 		return 0, false
 	}
 	return constant.Int64Val(constant.ToInt(obj.Val()))
+}
+
+// hasPartialStores: some field/element of the cell is stored to separately.
+func hasPartialStores(a *ssa.Alloc) bool {
+	if a.Referrers() == nil {
+		return false
+	}
+	for _, r := range *a.Referrers() {
+		var addr ssa.Value
+		switch x := r.(type) {
+		case *ssa.FieldAddr:
+			addr = x
+		case *ssa.IndexAddr:
+			addr = x
+		}
+		if addr == nil || addr.Referrers() == nil {
+			continue
+		}
+		for _, rr := range *addr.Referrers() {
+			if st, ok := rr.(*ssa.Store); ok && st.Addr == addr {
+				return true
+			}
+		}
+	}
+	return false
 }
